@@ -44,8 +44,7 @@ def run_one(m, tests, scale):
         return m["id"], ("KILLED" if killed else f"SURVIVED(rc={r.returncode})"), f"tests_pass={tests_ok} {sig} {r.stderr[-300:] if r.returncode == 2 else ''}"
     finally:
         shutil.rmtree(tmp, ignore_errors=True)
-        # replays written while running against a mutant must not pollute the regression corpus
-        subprocess.run(["git", "-C", HERE, "clean", "-fdq", "replays"], capture_output=True)
+        # (with VERIF_MUTANT=1 the runner writes replays and evidence under .work/changed_tree, not into the corpus)
 
 
 def main():
@@ -53,6 +52,7 @@ def main():
     ap.add_argument("--only")
     ap.add_argument("--tests", action="store_true")
     ap.add_argument("--scale", type=float, default=1.0)
+    ap.add_argument("--results", help="write a markdown table of the results to this file")
     a = ap.parse_args()
     ms = []
     for f in sorted(glob.glob(os.path.join(HERE, "mutants", "*.json"))):
@@ -61,11 +61,21 @@ def main():
         want = set(a.only.split(","))
         ms = [m for m in ms if m["id"] in want or m["property"] in want]
     survived = 0
+    rows = []
     for m in ms:
         mid, status, detail = run_one(m, a.tests, a.scale)
         print(f"{mid:28s} {m['property']} {status:16s} {detail}", flush=True)
         survived += not status.startswith("KILLED")
+        sigs = sorted(set(__import__("re").findall(r"signature=([^'\]]+)", detail)))
+        rows.append((mid, m["property"], status, "; ".join(sigs), m.get("note", "")))
     print(f"{len(ms) - survived}/{len(ms)} mutants killed")
+    if a.results:
+        with open(a.results, "w") as f:
+            f.write("# Mutation results (tools/mutate.py, quick tier, VERIF_SEED=%s)\n\n" % os.environ.get("VERIF_SEED", "1"))
+            f.write(f"{len(ms) - survived}/{len(ms)} mutants killed. Each mutant is applied to a scratch copy of the repository; KILLED = the named quick check exits 1 with a VIOLATION line.\n\n")
+            f.write("| mutant | property | result | signatures | what it changes |\n|---|---|---|---|---|\n")
+            for r in rows:
+                f.write("| " + " | ".join(x.replace("|", "/") for x in r) + " |\n")
     return 1 if survived else 0
 
 
